@@ -68,8 +68,10 @@ SPEC = dict(
              'command class, acceptance implies the frame is a well-formed answer to that command (function code, 2 x count '
              'payload bytes, length, echo of register/value, CRC-16 / additive checksum against an independent bit-serial '
              'CRC specification), and the validator has only its four documented outcomes.  The delivery step (set_result '
-             'only under an accepting validator) is a theorem about the hand-written protocol model, tied to the code by '
-             'trace validation of the real classes under a virtual-time event loop.',
+             'only under an accepting validator) is a theorem about the hand-written protocol model (C01_delivery), tied to the code '
+             'by the callback / coroutine translations (cb2v, co2v: reception, the synchronous transmission step that assigns '
+             'self.command, and the skeleton of send_request -- lock first -- are proved to be the model\'s: C01_*_is_the_model) and '
+             'by trace validation of the real classes under a virtual-time event loop, two callers at once included.',
         note='Trusted: Coq kernel + vm_compute; py2v translator and coq/Py prelude (validated on every run against CPython '
              'on valid frames, every truncation, bit flips, insert/delete, garbage); Spec/Responses.v + Spec/Crc16.v as the '
              'meaning of "well-formed"; Model/Proto.v (hand model, trace-validated) for the delivery step. Header bytes AA55, '
@@ -79,10 +81,12 @@ SPEC = dict(
     stages=[stage_translation, stage_monitor, PCM.stage_for('C01')],
     theorems=['C01_total', 'C01_rtu_read_sound', 'C01_rtu_write_sound', 'C01_rtu_write_multi_sound', 'C01_tcp_read_sound',
               'C01_tcp_write_sound', 'C01_tcp_write_multi_sound', 'C01_aa55_read_sound', 'C01_aa55_write_sound',
-              'C01_aa55_write_multi_sound', 'C01_aa55_generic_sound', 'C01_crc'],
+              'C01_aa55_write_multi_sound', 'C01_aa55_generic_sound', 'C01_crc', 'C01_delivery', 'C01_datagram_received_is_the_model',
+              'C01_data_received_is_the_model', 'C01_transmission_is_the_model', 'C01_send_request_is_the_model'],
     rule='commands: every command class x boundary + seeded (address, register, count/value); frames per command: valid answer, '
          'truncations, single-bit flips, byte insert/delete, random garbage of many lengths, trailing bytes, answers to other '
          'commands; a case is distinct by (command, frame bytes)',
-    trusted_base=['Spec/Responses.v + Spec/Crc16.v (hand-written response well-formedness, bit-serial CRC)'],
+    trusted_base=['Spec/Responses.v + Spec/Crc16.v (hand-written response well-formedness, bit-serial CRC)',
+                  'tools/cb2v.py + tools/co2v.py and the meaning of their statement languages (Model/Callbacks.v, Model/Coroutines.v)'],
     assumptions=['counts 1..125, 16-bit registers, signed 16-bit values, byte strings (every element 0..255)'],
 )
